@@ -35,7 +35,9 @@ MUT = [
  # harmless rewrites
  ("H01 rename local whitespaces -> ws (_scan_flow_scalar_spaces)", None, None),
  ("H02 reorder independent assignments chunks/length (_scan_plain_spaces)", "def _scan_plain_spaces(stream: StreamBuffer, allow_newline: bool = True) -> list[str]:\n    chunks = []\n    length = 0\n", "def _scan_plain_spaces(stream: StreamBuffer, allow_newline: bool = True) -> list[str]:\n    length = 0\n    chunks = []\n"),
- ("H03 comment + reworded message", '"found unexpected end of stream"', '"unexpected end"  # reworded'),
+ ("H03 comment + reworded message", '            "found unexpected end of stream",\n', '            "unexpected end",  # reworded\n'),
+ ("H06 `x in (a, b)` tuple instead of string (_scan_block_scalar_indicators)", '    if ch in "+-":\n        chomping = ch == "+"\n        stream.forward()\n        ch = stream.peek()\n        if ch in "0123456789":', '    if ch in ("+", "-"):\n        chomping = ch == "+"\n        stream.forward()\n        ch = stream.peek()\n        if ch in "0123456789":'),
+ ("H07 extra unused local (_scan_line_break)", '    ch = stream.peek()\n    if ch in "\\r\\n\\x85":', '    ch = stream.peek()\n    unused = 0\n    if ch in "\\r\\n\\x85":'),
  ("H04 `length += 1` -> `length = length + 1` (block scalar)", "        while stream.peek(length) not in _CHARS_END_NEWLINE:\n            length += 1\n        chunks.append", "        while stream.peek(length) not in _CHARS_END_NEWLINE:\n            length = length + 1\n        chunks.append"),
  ("H05 `not x == y` -> `x != y` style (plain_spaces: line_break != newline -> not ==)", '        if line_break != "\\n":\n            chunks.append(line_break)\n        elif not breaks:\n            chunks.append(" ")\n        chunks.extend(breaks)\n    elif whitespaces:', '        if not line_break == "\\n":\n            chunks.append(line_break)\n        elif not breaks:\n            chunks.append(" ")\n        chunks.extend(breaks)\n    elif whitespaces:'),
 ]
